@@ -4,7 +4,7 @@
 #  clean tree: demo PASS;  patched: builds, repo test-suite passes, demo FAIL.  On success copies it to /verif/seeded/<prop>-<variant>/
 p=$1; v=$2; root=${3:-/tmp/mut}; sid=${4:-$p-$v}; src=$root/$p/out; wt=/tmp/confirm
 [ -d $wt ] || git -C /repo worktree add -q --detach $wt HEAD
-cd $wt && git checkout -q -- . && rm -rf out _b && mkdir out && cp $src/*_$v.* out/ 2>/dev/null
+cd $wt && git checkout -q -- . && rm -rf out _b && mkdir out && cp $src/*_$v.* $src/*_${v}_* out/ 2>/dev/null
 run_demo() {
   if [ -f out/demo_$v.sh ]; then sh out/demo_$v.sh > out/demo.log 2>&1; echo $?
   else gcc -Iinclude -DPOLYSEED_STATIC out/demo_$v.c _b/libpolyseed.a -lutf8proc -o out/demo_$v > out/demo.log 2>&1 && ./out/demo_$v >> out/demo.log 2>&1; echo $?; fi
@@ -23,7 +23,7 @@ echo "$p $v: clean demo rc=$rc_clean ($clean_tail) | patched: tests='$tests' dem
 if [ $ok = yes ]; then
   d=/verif/seeded/$sid; mkdir -p $d
   cp out/patch_$v.diff $d/patch.diff
-  for f in out/demo_$v.*; do cp $f $d/; done
+  for f in out/demo_$v.* out/demo_${v}_*; do [ -f $f ] && cp $f $d/; done
   cp out/meta_$v.json $d/agent_meta.json 2>/dev/null
   echo "clean: rc=$rc_clean $clean_tail; patched: tests: $tests; demo rc=$rc_mut $mut_tail" > $d/confirmation.txt
 fi
